@@ -38,6 +38,7 @@ type reg struct {
 	k        int // position in the key space of the world
 	sim      *sim.Region
 	view     *core.RegionInfo   // == mc.GetRegion(id); nil once the region is gone from pd's cache
+	lastView *core.RegionInfo   // the last view pd held (kept after the region is gone)
 	oldViews []*core.RegionInfo // a few superseded snapshots (operators built from them must be refused)
 	dirty    bool               // sim changed since the last view was put
 	dead     bool               // merged into a neighbour: the store no longer has it
@@ -106,7 +107,36 @@ func (t *opTrack) coincides(f footprint) bool {
 	return t.fpk[[2]uint64{f.store, f.id}]
 }
 
+// hookCluster is the opt.Cluster handed to the controller: the repository's cluster double, with the
+// region-cache read intercepted. A region heartbeat is put into the cache under the cluster's lock,
+// not the controller's, so in a running server it can land between any two cache reads of one
+// controller call; the hook lets a directed family place it there.
+type hookCluster struct {
+	*mockcluster.Cluster
+	hook  func(id uint64, n int)
+	reads int
+}
+
+func (h *hookCluster) GetRegion(id uint64) *core.RegionInfo {
+	if h.hook != nil {
+		h.reads++
+		h.hook(id, h.reads)
+	}
+	return h.Cluster.GetRegion(id)
+}
+
+// injection: a cache update placed inside a controller call, before the controller's at-th cache read.
+type injection struct {
+	at     int
+	kind   string // conf | leader | evict
+	g      *reg
+	done   bool
+	before *core.RegionInfo // the region as the cache held it until the injection
+}
+
 type world struct {
+	hc      *hookCluster
+	inj     *injection
 	r       *ev.Run
 	rng     *rand.Rand
 	wid     int
@@ -127,9 +157,16 @@ type world struct {
 	seq     int
 	evNo    int
 	callNo  int
+
+	lastReads int  // cache reads of the last controller call
+	finite    bool // small store limits (admissions get refused for quota)
 }
 
 func key(k int) []byte { return []byte(fmt.Sprintf("k%04d", k)) }
+
+// finiteLimits: the next clusters get small store limits (wall-clock token buckets; they only decide
+// which operators are refused, never a verdict).
+var finiteLimits bool
 
 func newBareCluster(mode string, nStores int) (*mockcluster.Cluster, context.CancelFunc, []uint64, error) {
 	clusterMu.Lock()
@@ -156,8 +193,13 @@ func newBareCluster(mode string, nStores int) (*mockcluster.Cluster, context.Can
 		mc.AddLabelsStore(id, 0, map[string]string{"zone": fmt.Sprintf("z%d", i%3), "host": fmt.Sprintf("h%d", i)})
 		mc.PutStore(mc.GetStore(id).Clone(core.SetLastHeartbeatTS(far)))
 		// store limits are wall-clock token buckets: out of the way
-		mc.SetStoreLimit(id, storelimit.AddPeer, storelimit.Unlimited*60)
-		mc.SetStoreLimit(id, storelimit.RemovePeer, storelimit.Unlimited*60)
+		if finiteLimits {
+			mc.SetStoreLimit(id, storelimit.AddPeer, 0.6)
+			mc.SetStoreLimit(id, storelimit.RemovePeer, 0.6)
+		} else {
+			mc.SetStoreLimit(id, storelimit.AddPeer, storelimit.Unlimited*60)
+			mc.SetStoreLimit(id, storelimit.RemovePeer, storelimit.Unlimited*60)
+		}
 		stores = append(stores, id)
 	}
 	// ids are cluster-wide unique in a real cluster: keep allocator ids away from store ids, region ids
@@ -178,8 +220,10 @@ func newWorld(r *ev.Run, rng *rand.Rand, wid int, mode string, nStores, nRegions
 	ctx, cancel2 := context.WithCancel(context.Background())
 	inner := w.cancel
 	w.cancel = func() { cancel2(); inner() }
+	w.hc = &hookCluster{Cluster: mc}
+	w.hc.hook = w.onCacheRead
 	w.hb = hbstream.NewTestHeartbeatStreams(ctx, mc.ID, mc, false)
-	w.oc = schedule.NewOperatorController(ctx, mc, w.hb)
+	w.oc = schedule.NewOperatorController(ctx, w.hc, w.hb)
 	for k := 0; k < nRegions; k++ {
 		rid := uint64(101 + k)
 		var sr *sim.Region
@@ -198,6 +242,54 @@ func newWorld(r *ev.Run, rng *rand.Rand, wid int, mode string, nStores, nRegions
 		g.logf("init %s", sr.Describe())
 	}
 	return w, nil
+}
+
+// onCacheRead runs on the controller's goroutine right before its n-th region-cache read of the call.
+func (w *world) onCacheRead(id uint64, n int) {
+	in := w.inj
+	if in == nil || in.done || n != in.at {
+		return
+	}
+	in.done = true
+	g := in.g
+	in.before = g.view
+	w.r.Count("cache_update_inside_call_"+in.kind, 1)
+	switch in.kind {
+	case "conf":
+		if _, err := w.foreignConf(g, "add-learner"); err != nil {
+			w.foreignVersion(g, false)
+		}
+		w.putView(g)
+		g.logf("#%d ... region cache updated to %s WHILE the controller call is running (before its cache read no. %d)", w.evNo, epochStr(g.view.GetRegionEpoch()), n)
+	case "leader":
+		if !w.foreignLeader(g, false) {
+			w.foreignVersion(g, false)
+		}
+		w.putView(g)
+		g.logf("#%d ... region cache updated (leader %d) WHILE the controller call is running (before its cache read no. %d)", w.evNo, g.view.GetLeader().GetStoreId(), n)
+	case "evict":
+		w.foreignEvict(g)
+		g.logf("#%d ... region evicted from the cache WHILE the controller call is running (before its cache read no. %d)", w.evNo, n)
+	}
+}
+
+// foreignEvict: the region is merged into a neighbour this world does not track (or the neighbour's
+// heartbeat with the wider range arrives): the store no longer has it and pd's cache drops it.
+func (w *world) foreignEvict(g *reg) {
+	if g.view != nil {
+		w.mc.RemoveRegion(g.view)
+	}
+	g.dead = true
+	g.inbox = nil
+	for _, t := range g.ops {
+		t.foreign = true
+		t.ambiguous = true
+		t.fkinds["region-merged-away"] = true
+	}
+	for _, id := range w.rids {
+		w.regs[id].view = w.mc.GetRegion(id)
+	}
+	g.logf("#%d FOREIGN region %d merged away and evicted from pd's cache", w.evNo, g.id)
 }
 
 func (w *world) close() {
@@ -277,6 +369,9 @@ func (w *world) putView(g *reg) {
 	for _, id := range w.rids {
 		o := w.regs[id]
 		o.view = w.mc.GetRegion(id)
+		if o.view != nil {
+			o.lastView = o.view
+		}
 	}
 }
 
